@@ -19,10 +19,21 @@
 // recording function, other component instances) before observing either (instance identity:
 // rt.Cur, <member>/instance-identity), and the observations fork every partial application at
 // every level (rt.Fork, rt.Fork1..9: <member>/forked-partial-application).
+//
+// Nil / zero argument values: the sites never convert between strings and argument types
+// themselves; values are created by rt.Mk / rt.MkY / rt.MkS and read back by rt.Rd (rt/nilable.go).
+// Every site of a family whose defining equation does not inspect the argument values (all but
+// eq/ord/hash/monoid/clone TupleN) is registered a third time (RegNil, "nilable-types"
+// instantiation) with nil-able types spread over the positions (slice, map, pointer, func,
+// error, any, a named interface) and, up to three type parameters, a fourth time ("zero-types":
+// struct, string, int, bool). These registrations run in the batches nBatches..2*nBatches-1,
+// appended after the batches of the two older instantiations; a per-case mask decides which
+// positions carry nil / the zero value (runNilCase: <member>/nil-argument).
 package main
 
 import (
 	"fmt"
+	"runtime/debug"
 	"sort"
 	"strings"
 
@@ -52,7 +63,10 @@ func init() {
 		if a.Member != b.Member {
 			return a.Member < b.Member
 		}
-		return a.Sub < b.Sub
+		if a.Sub != b.Sub {
+			return a.Sub < b.Sub
+		}
+		return a.Inst < b.Inst
 	})
 }
 
@@ -154,7 +168,7 @@ func runNilCase(w *vrt.W, mine []int, i int) {
 	st, j := nilLocate(w.Tier, mine, i)
 	r := w.Rand(i)
 	p := len(st.Kinds)
-	c := &rt.Cx{W: w, Idx: i, Variant: "nilable-types", Gen: 1, ForkSeed: j, Nilable: true, Kinds: st.Kinds, Sub: st.Sub}
+	c := &rt.Cx{W: w, Idx: i, Variant: st.Inst, Gen: 1, ForkSeed: j, Nilable: true, Kinds: st.Kinds, Sub: st.Sub}
 	what := ""
 	switch {
 	case j == 0:
@@ -197,13 +211,18 @@ func runNilCase(w *vrt.W, mine []int, i int) {
 		c2.TagY[k] = c2.TagV[k] + "'"
 	}
 	c.Other, c2.Other = c2, c
-	for _, g := range []*rt.Cx{c, c2} {
+	render := func(g *rt.Cx) {
 		g.NNil, g.NNilY = countMask(g.ZV), countMask(g.ZY)
 		for k := 1; k <= p; k++ {
 			g.V[k] = rt.Render(st.Kinds[k-1], g.TagV[k], g.ZV[k])
 			g.Y[k] = rt.Render(st.Kinds[k-1], g.TagY[k], g.ZY[k])
 		}
 	}
+	render(c)
+	render(c2)
+	// a failed check of a case with a non-empty mask is held back until the control (below) ran
+	hold := j != 0
+	c.Hold, c2.Hold = hold, hold
 	first, second := c, c2
 	if j%2 == 1 {
 		first, second = c2, c
@@ -212,22 +231,82 @@ func runNilCase(w *vrt.W, mine []int, i int) {
 	if (j/2)%2 == 1 {
 		o1, o2 = second, first
 	}
-	witness := func() any {
-		return map[string]any{"member": st.Member, "builder_methods": st.Sub, "instantiation": c.Variant, "mask": what,
-			"constructed": []int{first.Gen, second.Gen}, "observed": []int{o1.Gen, o2.Gen, o1.Gen},
-			"construction_1": c.Witness(), "construction_2": c2.Witness()}
-	}
-	rt.ResetCase()
-	w.Begin(i, st.Member)
-	w.Guard(i, witness, func() {
+	// both (construct first, second; observe o1, o2, o1); with catch, an unexpected panic is
+	// returned instead of propagated (a logical-budget panic always propagates)
+	both := func(first, second, o1, o2 *rt.Cx, catch bool) (pan any, stack string) {
+		if catch {
+			defer func() {
+				if r := recover(); r != nil {
+					if _, isB := r.(vrt.BudgetExceeded); isB {
+						panic(r)
+					}
+					pan, stack = r, string(debug.Stack())
+					if len(stack) > 3000 {
+						stack = stack[:3000]
+					}
+				}
+			}()
+		}
+		rt.ResetCase()
 		first.Run(func() { st.Fn(first) })
 		second.Run(func() { st.Fn(second) })
 		o1.Run(o1.Observe)
 		o2.Run(o2.Observe)
 		o1.Run(o1.Observe)
+		return nil, ""
+	}
+	// control: the same case (types, tags, orders) with a non-nil, non-zero value everywhere -
+	// except at bool positions, which keep the value they had: a bool cannot carry a tag, so
+	// true / false is the only way two bool arguments (value and fork alternative) can differ,
+	// and a break that has nothing to do with nil must show in the control as well
+	control := func() (fails map[string]bool, panicked bool) {
+		k1 := &rt.Cx{W: w, Idx: i, Variant: c.Variant, Gen: 1, ForkSeed: c.ForkSeed, Nilable: true, Kinds: st.Kinds, Sub: st.Sub, Hold: true, TagV: c.TagV, TagY: c.TagY}
+		k2 := &rt.Cx{W: w, Idx: i, Variant: c.Variant, Gen: 2, ForkSeed: c2.ForkSeed, Nilable: true, Kinds: st.Kinds, Sub: st.Sub, Hold: true, TagV: c2.TagV, TagY: c2.TagY}
+		k1.Other, k2.Other = k2, k1
+		for k := 1; k <= p; k++ {
+			if st.Kinds[k-1] == 'b' {
+				k1.ZV[k], k1.ZY[k], k2.ZV[k], k2.ZY[k] = c.ZV[k], c.ZY[k], c2.ZV[k], c2.ZY[k]
+			}
+		}
+		render(k1)
+		render(k2)
+		of := map[*rt.Cx]*rt.Cx{c: k1, c2: k2}
+		pan, _ := both(of[first], of[second], of[o1], of[o2], true)
+		fails = map[string]bool{}
+		for _, g := range []*rt.Cx{k1, k2} {
+			for _, h := range g.Held {
+				fails[h.What] = true
+			}
+		}
+		w.Add("nil.control_cases_run", 1)
+		return fails, pan != nil
+	}
+	witness := func() any {
+		return map[string]any{"member": st.Member, "builder_methods": st.Sub, "instantiation": c.Variant, "mask": what,
+			"constructed": []int{first.Gen, second.Gen}, "observed": []int{o1.Gen, o2.Gen, o1.Gen},
+			"construction_1": c.Witness(), "construction_2": c2.Witness()}
+	}
+	w.Begin(i, st.Member)
+	w.Guard(i, witness, func() {
+		pan, stack := both(first, second, o1, o2, hold)
+		if pan == nil && len(c.Held)+len(c2.Held) == 0 {
+			return
+		}
+		// something failed while some argument was nil: is the nil needed?
+		fails, cpan := control()
+		if pan != nil {
+			if cpan {
+				panic(pan) // panics without nil as well: <member>/panic
+			}
+			rt.Cur = nil
+			c.ReportNil("panic", fmt.Sprintf("unexpected panic: %v\n%s", pan, stack))
+		}
+		c.ReportHeld(fails)
+		c2.ReportHeld(fails)
 	})
 	w.Done(i)
 	w.Add("nil.cases", 1)
+	w.Add("nil.instantiation_cases", 1)
 	w.Add("nil.cases."+what, 1)
 	w.Add("nil.sites."+st.Family, 1)
 	if c.NNilY > 0 {
@@ -469,7 +548,7 @@ func main() {
 		},
 		Exhaustive:    func(string) bool { return true },
 		CaseCPUBudget: 120,
-		Rule:          "index set = every generated call site, i.e. every (family, arity) member the library exports for the families of C14 (list: coverage.pairs_executed; the generator ./c14/gen enumerates the arity ranges genfp.MaxFunc / MaxProduct / MaxCompose give: 0/1/2..9 function families, 1/2..21 product families, 2..5 fp.Compose). case = (call site, instantiation, value assignment): instantiation is 'distinct-types' (A1..An := the last n of the pairwise distinct named types T1..T22) or 'same-type' (every Ai := S); value assignment j=0 is the plain tagging a1..an, j>0 draws a PRNG suffix per position (values stay position-tagged, hence pairwise distinct) plus, for the Eq/Ord/Hash/Monoid families, a second operand that differs from the first at none / one / a random subset / a suffix of the positions. The expected value next to each call is written out by the generator; the function argument f records the argument vector it received (every call must carry exactly the wanted vector, at least one call). The arity dimension is enumerated completely (exhaustive refers to this finite index set, not to the values). distinct_nontrivial = number of distinct members with at least 2 argument positions whose call site ran (each site registers itself when it executes). INSTANCE IDENTITY: every case runs its site twice (constructions 1 and 2) for the same type arguments, with other values, another recording function (f(..) / g(..), f<k> / g<k> for compositions) and other component instances; both are constructed before either is observed, construction order and observation order alternate with j (all four combinations), the construction observed first is observed again at the end. A recording function or component instance consulted while ANOTHER construction is observed is a violation (<member>/instance-identity), as is an instance that answers for all-equal operands without consulting every component it was given. For eq/ord/hash/monoid/clone TupleN construction 2 carries at chosen positions an instance that BEHAVES differently (Ord reversed, Eq/Hashable trivial with constant hash, Monoid/Clone differently tagged and combining the other way round); the reference is computed from the instances given to that construction. j=0: every position different, equal operands; j=1..min(n,15): position j (and j+15) different and the operands differ exactly at position j (distinct-types; from position j on for even j when n < j+15) or exactly at j+15, else j (same-type), so that every position of every member decides an observed result (identity.member_positions_decided.<family> = sum of arities). FORKS: every member that returns something applicable more than once is forked: curried results (curried.FuncN/FlipN/SlipLN/ComposeN, as.CurriedN, try.CurriedN, option/try/future FlapN) at EVERY application level L = 1..N (from the partial application of x1..x(L-1) two continuations p(xL), p(yL) are derived, both before either is finished with its own remaining arguments), Applicative/Chain builders at every stage (b.M(a_L) and b.M(y_L) from one builder prefix, both completed with the same methods), FlipApplyN / ApplyFirstN / ApplyLastN / MethodN / FlatMethodN / SupplierN as two partial applications of one function crossed with two last arguments, and lifted / converted functions (as.FuncN, UnTupledN, Tupled2, RevertN, hlist.LiftN/RiftN, product.LiftN, LiftAN/LiftMN, try/future FuncN, unit.FuncN, fp.ComposeN, fn1.MergeN) as one constructed function applied to two argument vectors; the two continuations are finished in both orders (alternating), each must equal the defining equation for its own argument vector and f must have received exactly these two vectors (<member>/forked-partial-application).",
+		Rule:          "index set = every generated call site, i.e. every (family, arity) member the library exports for the families of C14 (list: coverage.pairs_executed; the generator ./c14/gen enumerates the arity ranges genfp.MaxFunc / MaxProduct / MaxCompose give: 0/1/2..9 function families, 1/2..21 product families, 2..5 fp.Compose). case = (call site, instantiation, value assignment): instantiation is 'distinct-types' (A1..An := the last n of the pairwise distinct named types T1..T22) or 'same-type' (every Ai := S); value assignment j=0 is the plain tagging a1..an, j>0 draws a PRNG suffix per position (values stay position-tagged, hence pairwise distinct) plus, for the Eq/Ord/Hash/Monoid families, a second operand that differs from the first at none / one / a random subset / a suffix of the positions. The expected value next to each call is written out by the generator; the function argument f records the argument vector it received (every call must carry exactly the wanted vector, at least one call). The arity dimension is enumerated completely (exhaustive refers to this finite index set, not to the values). distinct_nontrivial = number of distinct members with at least 2 argument positions whose call site ran (each site registers itself when it executes). INSTANCE IDENTITY: every case runs its site twice (constructions 1 and 2) for the same type arguments, with other values, another recording function (f(..) / g(..), f<k> / g<k> for compositions) and other component instances; both are constructed before either is observed, construction order and observation order alternate with j (all four combinations), the construction observed first is observed again at the end. A recording function or component instance consulted while ANOTHER construction is observed is a violation (<member>/instance-identity), as is an instance that answers for all-equal operands without consulting every component it was given. For eq/ord/hash/monoid/clone TupleN construction 2 carries at chosen positions an instance that BEHAVES differently (Ord reversed, Eq/Hashable trivial with constant hash, Monoid/Clone differently tagged and combining the other way round); the reference is computed from the instances given to that construction. j=0: every position different, equal operands; j=1..min(n,15): position j (and j+15) different and the operands differ exactly at position j (distinct-types; from position j on for even j when n < j+15) or exactly at j+15, else j (same-type), so that every position of every member decides an observed result (identity.member_positions_decided.<family> = sum of arities). FORKS: every member that returns something applicable more than once is forked: curried results (curried.FuncN/FlipN/SlipLN/ComposeN, as.CurriedN, try.CurriedN, option/try/future FlapN) at EVERY application level L = 1..N (from the partial application of x1..x(L-1) two continuations p(xL), p(yL) are derived, both before either is finished with its own remaining arguments), Applicative/Chain builders at every stage (b.M(a_L) and b.M(y_L) from one builder prefix, both completed with the same methods), FlipApplyN / ApplyFirstN / ApplyLastN / MethodN / FlatMethodN / SupplierN as two partial applications of one function crossed with two last arguments, and lifted / converted functions (as.FuncN, UnTupledN, Tupled2, RevertN, hlist.LiftN/RiftN, product.LiftN, LiftAN/LiftMN, try/future FuncN, unit.FuncN, fp.ComposeN, fn1.MergeN) as one constructed function applied to two argument vectors; the two continuations are finished in both orders (alternating), each must equal the defining equation for its own argument vector and f must have received exactly these two vectors (<member>/forked-partial-application). NIL / ZERO ARGUMENT VALUES: every call site of a family whose defining equation does not itself inspect the argument values (TupleN/LabelledN accessors; as.*, curried.*, hlist.*, product.*, fp.Compose/ApplyFirst/ApplyLast/Id, fn1.Merge, unit.Func; option/try/future LiftA/LiftM/Map/FlatMap/Flap/Method/FlatMethod/Func/Curried; the Applicative builders at every arity, the Chain builders at arity 9 (one chain per builder method plus the mixed one: every method of MonadChainK, K = 9..1) and 1..3; below arity 9 an additional all-Ap chain, Ap being the method that hands the plain VALUE to the library) has a further instantiation 'nilable-types' and, when it has at most three type parameters and is no builder, a 'zero-types' one (coverage.nil_instantiation_registrations; batches 16..31, appended so that the cases of the two older instantiations are unchanged). nilable-types: the type arguments are nil-able types, an interface type (error, any, a named interface; Labelled families: the named interface) at every other slot and []string / map[string]string / *struct / func() string between them - a nil interface is nil for `any(v) == nil`, for reflection-based nil checks (option.Of) and for zero-value checks alike, the other kinds for the reflection-based ones; slots are right-aligned per arity (tails shared), rotated per package and family and shifted by one from arity 6 on, so that interface and non-interface kinds reach a position both when it is counted from the front and from the end. zero-types: struct, string, int, bool rotating over the positions. coverage.nil_kinds_by_position lists the kinds that were nil / zero at each position (floors: every nil-able kind at 1..9, every zero-able kind at 1..3). case = (registration, mask): no position nil (control), every position nil, exactly position p nil for every value position p in turn (fork alternatives: none nil / the next position nil, alternating), then PRNG subsets (6 quick / 96 thorough) for values and, independently, fork alternatives; construction 2 carries the masks shifted by one position. A position in the mask carries nil (slice, map, pointer, func, interfaces) or the zero value (struct, string, int 0, false), any other position a value carrying the position tag ([]string{tag}, map{tag}, &box{tag, self pointer}, func returning tag, error / boxed any / interface value with the tag, struct{tag}, string tag, a fresh int registered with the tag; bool: true). Values are read back as '<kind>:<tag>' / 'nil:<kind>' / 'zero:<kind>' (a pointer that is not the one handed out reads 'ptr(another address)', accessors also compare pointer identity), so a nil that moved, vanished or appeared, and a neighbour that changed, show in the argument vector the recording function received and in every result. The expectation is the same defining expression as for the other instantiations (e.g. option.ApplicativeN(f).Ap(nil)... = Some(f(..nil..)); compositions / merges: a step whose result position is in the mask returns nil). A failed check (or panic) of a case with a non-empty mask is held back and the same case is run again with a non-nil, non-zero value at every position (same types, tags and orders; bool positions keep their value, a bool carries no tag): if that control fails the same check, the failure is no matter of nil and is reported under the general key (<member>/result, /f-arguments, /forked-partial-application, ...); if only the case with nil fails it is reported as <member>/nil-argument.",
 		Assumptions: []string{
 			"values are sampled (16 assignments per site and instantiation in quick, 256 in thorough); only the (family, arity) index set is exhaustive",
 			"futures are observed after running every task the default executors scheduled (spawn hook fp.VerifSetSpawn, FIFO); inputs are already-completed futures",
@@ -479,6 +558,7 @@ func main() {
 			"by parametricity the distinct-types instantiation cannot reorder at run time; it is kept because it is the instantiation in which the generated library text must type-check position by position",
 			"two constructions per case and type instantiation, interleaved in all four (construction, observation) orders; a member whose behaviour depends on a longer history (three or more constructions, or constructions for OTHER type arguments) is outside what is observed",
 			"forks are binary (two continuations per level, finished in both orders, one level at a time); builder chains are forked at every stage with the chain's own methods; futures are completed ones and their tasks run FIFO per construction",
+			"nil / zero argument values: fp.Some / fp.Success / future.Successful / struct literals / hlist.Concat are trusted to carry a nil payload unchanged (they are the constructors of the inputs); the type-class families eq/ord/hash/monoid/clone TupleN keep string-kinded arguments (their defining equation consults the component instances with the values); the Chain builders of arity 4..8 have no nilable-types instantiation (ChainN(f) takes no argument value and every method of MonadChain8..1 lies on the arity-9 chains; each further arity costs 10..30 CPU-s of compile time); TupleN/LabelledN.String() is compared with fmt %v of the same values (pointers and funcs print their address); a bool position cannot carry a tag (true / false only); the kind of a position is fixed per call site (types are compile-time): a break confined to one member AND one position AND one style of nil check is seen only if that position of that member carries a kind the check answers to (an interface kind answers to all of them: 1 of 2 positions, and every position of every family counted from either end over the arities); zero-able kinds (struct, string, int, bool) are instantiated up to three type parameters only, builders not at all",
 		},
 		Floors: func(tier string) map[string]int64 {
 			fl := map[string]int64{"distinct": int64(nontrivialMembers()), "sites.distinct-types": int64(len(sites)), "sites.same-type": int64(len(sites))}
@@ -532,7 +612,7 @@ func main() {
 				famPos[s.Family] += p
 				famCases[s.Family] += int64(nilCases(tier, len(s.Kinds)))
 			}
-			fl["sites.nilable-types"] = nCases
+			fl["nil.instantiation_cases"] = nCases
 			fl["nil.cases"] = nCases
 			fl["nil.cases.no_position_nil"] = int64(len(nilSites))
 			fl["nil.cases.every_position_nil"] = int64(len(nilSites))
@@ -548,9 +628,18 @@ func main() {
 				fl["nil.sites."+f] = famCases[f]
 			}
 			for _, k := range nilKinds {
-				fl["nil.kind."+k] = 1000
-				fl["nil.kind_nonnil."+k] = 1000
-				for p := 1; p <= 9; p++ {
+				// the nil-able kinds are nil at each of the positions 1..9, the zero-able kinds (only
+				// instantiated up to three type parameters) zero at each of the positions 1..3
+				top := 9
+				fl["nil.kind."+k] = 3000
+				fl["nil.kind_nonnil."+k] = 10000
+				switch k {
+				case "struct", "string", "int", "bool":
+					top = 3
+					fl["nil.kind."+k] = 500
+					fl["nil.kind_nonnil."+k] = 500
+				}
+				for p := 1; p <= top; p++ {
 					fl[fmt.Sprintf("nilkp.%02d.%s", p, k)] = 1
 				}
 			}
@@ -597,7 +686,11 @@ func main() {
 				sort.Strings(v)
 			}
 			cov["nil_kinds_by_position"] = kindsAt
-			cov["nilable_call_sites"] = len(nilSites)
+			byInst := map[string]int{}
+			for _, s := range nilSites {
+				byInst[s.Inst]++
+			}
+			cov["nil_instantiation_registrations"] = byInst
 			cov["nilable_random_masks_per_call_site"] = nilRandom(tier)
 			cov["pairs_executed"] = executed
 			cov["pairs_executed_count"] = nexec
